@@ -2,6 +2,8 @@
   Driver for the small pure decision functions (model + independent spec side by side).
 -/
 import Xandikos.Http.Spec
+import Xandikos.Http.FsMap
+import Xandikos.Py.PathProofs
 import Xandikos.Driver.Codec
 
 namespace Xandikos.PureDriver
@@ -20,6 +22,12 @@ def step (u : Unit) (line : String) : Unit × String :=
     let wf := items.all fun i => decide (WellFormedItem i)
     let spec := if wf then b (rfcMatches hdr c) else "-"
     (u, b model ++ " " ++ spec)
+  | ["mapfs", root, rel] =>
+    let r := mapToFilePath (fieldS root).toList (fieldS rel).toList
+    (u, enc (String.ofList r) ++ " " ++ b (decide (Path.Confined (fieldS root).toList r)))
+  | ["confined", root, f] =>
+    -- the OS resolves `a/..` itself: judge the lexically normalised path
+    (u, b (decide (Path.Confined (fieldS root).toList (Path.normpath (fieldS f).toList))))
   | _ => (u, "bad-op")
 
 end Xandikos.PureDriver
